@@ -228,6 +228,12 @@ struct Model {
             regs[flat::F_pc] = pc;
             break;
         }
+        case 10: { // mov #imm5, icr: one word; the per-line context-switch bits (and nimc) take the value; bit 4 (loop) written 0
+            uint64_t pc = regs[flat::F_pc];
+            regs = layout::write(layout_index("icr"), regs, (uint16_t)(n & 0x0F));
+            regs[flat::F_pc] = pc;
+            break;
+        }
         }
         // entry: first boundary where the global and the line enable are set and no repeat is running
         if (regs[flat::F_ie] && !regs[flat::F_rep]) {
@@ -299,7 +305,7 @@ rc::Gen<Op> genOp() {
         gen::map(vf::range<uint32_t>(0, 1u << 13), [](uint32_t v) { return Op{PokeCore, v, 0, 0}; }),
         gen::map(vf::range<uint32_t>(0, 1u << 13), [](uint32_t v) { return Op{PokeCore, v | 0x0F, 0, 0}; }), // everything enabled
         gen::map(gen::pair(gen::element<uint32_t>(1, 1, 2, 3, 3, 4, 5), vf::range<uint32_t>(0, 6)), [](std::pair<uint32_t, uint32_t> p) { return Op{Exec, p.first, p.second, 0}; }),
-        gen::map(gen::pair(vf::range<uint32_t>(6, 10), bits), [](std::pair<uint32_t, uint32_t> p) { return Op{Exec, p.first, p.second, 0}; }),
+        gen::map(gen::pair(vf::range<uint32_t>(6, 11), bits), [](std::pair<uint32_t, uint32_t> p) { return Op{Exec, p.first, p.second, 0}; }),
         gen::map(gen::pair(vf::range<uint32_t>(0, 2), vf::range<uint32_t>(1, 6)), [](std::pair<uint32_t, uint32_t> p) { return Op{TimerStart, p.first, p.second, 0}; }),
         gen::map(gen::pair(vf::range<uint32_t>(0, 3), vf::range<uint32_t>(0, 2)), [](std::pair<uint32_t, uint32_t> p) { return Op{HostSend, p.first, p.second, 0}; }),
         gen::just(Op{DmaStart, 0, 0, 0}),
@@ -359,11 +365,12 @@ vf::Result check(const Case& cs) {
             uint16_t saved2 = 0;
             if (instr && j == 0) {
                 static const char* forms[] = {"", "eint()", "dint()", "reti(CondValue)", "retic(CondValue)", "rep(Imm8)"};
-                uint16_t w = instr >= 6 ? mov_imm_to(kStWord[instr - 6])
+                uint16_t w = instr == 10 ? W("mov_icr(Imm5)", {(long)(n & 0x0F)})
+                             : instr >= 6 ? mov_imm_to(kStWord[instr - 6])
                                         : (instr == 5 ? W(forms[5], {(long)(n & 0xFF)}) : (instr >= 3 ? W(forms[instr], {0}) : W(forms[instr], {})));
                 saved = s.t->ProgramRead(pc);
                 s.t->ProgramWrite(pc, w);
-                if (instr >= 6) {
+                if (instr >= 6 && instr <= 9) {
                     saved2 = s.t->ProgramRead(pc + 1);
                     s.t->ProgramWrite(pc + 1, (uint16_t)n);
                 }
@@ -379,7 +386,7 @@ vf::Result check(const Case& cs) {
             auto o = s.guarded([&] { s.t->Run(1); });
             if (instr && j == 0) {
                 s.t->ProgramWrite(pc, saved);
-                if (instr >= 6)
+                if (instr >= 6 && instr <= 9)
                     s.t->ProgramWrite(pc + 1, saved2);
             }
             if (o.kind != 0)
@@ -483,6 +490,14 @@ vf::Result check(const Case& cs) {
         }
         case Exec: {
             static const char* nm[] = {"nop", "eint", "dint", "reti", "retic", "rep"};
+            if (op.a == 10) { // mov #imm5, icr: the context-switch configuration written through the Teak-native word
+                trace += "mov#" + vf::hex(op.b & 0x0F) + ",icr ";
+                vf::klass("program writes icr");
+                r = do_steps(i, 1, 10, op.b & 0x0F, ctx);
+                if (!r.ok)
+                    return r;
+                break;
+            }
             if (op.a >= 6 && op.a <= 9) { // a status word written by the program (never under a single-instruction repeat: two words)
                 if (m.regs[flat::F_rep]) {
                     vf::klass("status-word write skipped (repeat running)");
